@@ -1347,9 +1347,18 @@ def _has(c):
         return False
 
 
+def primal_of(obj):
+    """jax.custom_jvp / jax.custom_vjp object -> its primal function (the forward semantics), else None.  Whether the attached
+    derivative rule is the derivative of that primal is a separate obligation (C05)."""
+    if type(obj).__name__ in ("custom_jvp", "custom_vjp") and inspect.isfunction(getattr(obj, "fun", None)):
+        return obj.fun
+    return None
+
+
 def unwrap(fn):
     """Strip decorators that only guard the call (`only_allow_module`, `deprecated_kwargs`): they wrap the
     real function in a closure called `wrapper`."""
+    fn = primal_of(fn) or fn
     seen = 0
     while inspect.isfunction(fn) and fn.__name__ == "wrapper" and fn.__closure__ and seen < 5:
         inner = [c.cell_contents for c in fn.__closure__ if _has(c) and inspect.isfunction(c.cell_contents)]
@@ -1398,6 +1407,8 @@ class Runtime:
                     g[name] = self.overrides[name]
                 elif inspect.isfunction(val) and (val.__module__ or "").split(".")[0] in self.PKGS:
                     g[name] = _Lazy(val, self)
+                elif primal_of(val) is not None and (primal_of(val).__module__ or "").split(".")[0] in self.PKGS:
+                    g[name] = _Lazy(primal_of(val), self)
             g["super"] = sym_super        # builtin: zero-argument super() must find re-globalised methods
             self._gcache[key] = g
         return g
